@@ -64,8 +64,12 @@ func (wl *WebhookLogger) Log(ctx *fiber.Ctx, err error, body []byte, meta LogMet
 
 	access := "-"
 	reqURI := ctx.OriginalURL()
+	// a request target that is not a path ("*") has no bucket and object
 	path := strings.Split(ctx.Path(), "/")
-	bucket, object := path[1], strings.Join(path[2:], "/")
+	var bucket, object string
+	if len(path) > 1 {
+		bucket, object = path[1], strings.Join(path[2:], "/")
+	}
 	errorCode := ""
 	httpStatus := 200
 	// a response sent before the request was authenticated (an invalid
